@@ -417,8 +417,10 @@ pub fn zone_spec(apex: MName, valid_only: bool, big: bool, soa_min_lt_2_31: bool
         prop::collection::vec((zlabel(), 1usize..=10, any::<u8>()), 0..3),
         prop::collection::vec((prop::collection::vec(prop_oneof![Just(b"sub".to_vec()), Just(b"del".to_vec()), Just(b"a".to_vec())], 1..3), any::<u8>(), any::<u8>()), 0..3),
         prop::collection::vec((prop_oneof![Just(b"mx".to_vec()), Just(b"h".to_vec()), Just(b"ns".to_vec())], zlabel(), any::<u8>()), 0..3),
+        // a delegation with many long name-server names, glue and parent-side addresses (truncation tests)
+        if big { prop::option::weighted(0.6, (1usize..14, 1usize..=60, 0usize..8, any::<u8>())).boxed() } else { Just(None).boxed() },
     )
-        .prop_map(move |(class, kind, soa, apex_ns, mut recs, chains, delegations, hosts)| {
+        .prop_map(move |(class, kind, soa, apex_ns, mut recs, chains, delegations, hosts, bigdel)| {
             let mut all = Vec::new();
             if let Some((ttl, minimum, serial)) = soa {
                 all.push(RecSpec {
@@ -455,6 +457,33 @@ pub fn zone_spec(apex: MName, valid_only: bool, big: bool, soa_min_lt_2_31: bool
             for (host, user, kinds) in hosts {
                 if user != b"*" {
                     all.extend(host_recs(host, user, kinds));
+                }
+            }
+            if let Some((n_glue, lablen, n_other, addr_mask)) = bigdel {
+                let cut = vec![b"big".to_vec()];
+                for i in 0..n_glue + n_other {
+                    let mut label = vec![b'n'; lablen];
+                    label[0] = b'a' + (i % 26) as u8;
+                    let in_bailiwick = i < n_glue;
+                    let target = if in_bailiwick {
+                        NameSpec::Rel(vec![label, b"big".to_vec()], 0)
+                    } else {
+                        NameSpec::Rel(vec![label, b"servers".to_vec()], 0)
+                    };
+                    all.push(RecSpec {
+                        owner: NameSpec::Rel(cut.clone(), 0),
+                        ttl: 300,
+                        rd: RdSpec::Single(mr::T_NS, target.clone()),
+                    });
+                    if addr_mask & 1 != 0 || i % 2 == 0 {
+                        all.push(RecSpec { owner: target.clone(), ttl: 300, rd: RdSpec::A(i as u8) });
+                    }
+                    if addr_mask & 2 != 0 {
+                        all.push(RecSpec { owner: target.clone(), ttl: 300, rd: RdSpec::Aaaa(i as u8) });
+                    }
+                    if addr_mask & 4 != 0 {
+                        all.push(RecSpec { owner: target, ttl: 300, rd: RdSpec::A(100 + i as u8) });
+                    }
                 }
             }
             ZoneSpec {
